@@ -18,9 +18,18 @@ ASSUMPTIONS = [
 ]
 
 
-def image(shape, seed, lo=0.5, hi=2.0, spacing=(0.1, 0.1), origin=(0.0, 0.0), meta=True, name="im", dtype=float):
+def image(shape, seed, lo=0.5, hi=2.0, spacing=(0.1, 0.1), origin=(0.0, 0.0), meta=True, name="im", dtype=float, extra=None):
     from holopy.core.metadata import data_grid
     rng = np.random.RandomState(seed % (2 ** 31))
+    if extra == "channels2" or extra == "channels3":
+        nch = int(extra[-1])
+        a = rng.uniform(lo, hi, size=tuple(shape) + (nch,))
+        kw = dict(medium_index=1.33, illum_wavelen=0.66, illum_polarization=(1, 0), noise_sd=0.07) if meta else {}
+        return data_grid(a, spacing=tuple(spacing), name=name, extra_dims={"illumination": ["red", "green", "blue"][:nch]}, **kw)
+    if extra == "zstack":
+        a = rng.uniform(lo, hi, size=(3,) + tuple(shape))
+        kw = dict(medium_index=1.33, illum_wavelen=0.66, illum_polarization=(1, 0), noise_sd=0.07) if meta else {}
+        return data_grid(a, spacing=tuple(spacing), name=name, z=[0.0, 1.0, 2.5], **kw)
     a = rng.uniform(lo, hi, size=tuple(shape))
     if dtype is not float:
         a = np.round(a * 100).astype(dtype) + 1
@@ -65,6 +74,7 @@ def strat_ident(tier):
         "scale": gen.logu(1e-6, 1e6), "op": st.sampled_from(["normalize", "bg_correct", "detrend", "bg_mismatch"]),
         "plane": st.tuples(st.floats(-5, 5), st.floats(-5, 5), st.floats(-5, 5)).map(list),
         "df": st.booleans(), "raw_noise": st.booleans(), "meta": st.booleans(),
+        "extra": st.sampled_from([None, None, "channels2", "channels3", "zstack"]),
     })
 
 
@@ -74,9 +84,10 @@ def run_ident(case):
     from holopy.core.metadata import update_metadata
     op = case["op"]
     lo, hi = case["range"]
-    im = image(case["shape"], case["seed"], lo, hi, case["spacing"], case["origin"], case["meta"])
+    extra = case.get("extra") if op == "normalize" else None
+    im = image(case["shape"], case["seed"], lo, hi, case["spacing"], case["origin"], case["meta"], extra=extra)
     fp = det_fingerprint(im)
-    labels = [op]
+    labels = [op] + ([extra] if extra else [])
     if op == "normalize":
         n = normalize(im)
         m = float(n.values.mean())
@@ -88,6 +99,9 @@ def run_ident(case):
         ns = normalize(im * case["scale"])
         if np.abs(ns.values - n.values).max() > 1e-12 * np.abs(n.values).max() * TOLX:
             return Outcome(failure("normalize_scale_invariance", "normalize(c*a) != normalize(a) for c=%r" % case["scale"]), True, labels)
+        want = im.values / im.values.mean()
+        if np.abs(n.values - want).max() > 1e-12 * np.abs(want).max() * TOLX:
+            return Outcome(failure("normalize_values", "normalize(a) != a / mean(a)"), True, labels)
         for r in (n,):
             msg = meta_same(im, r) or coords_same(im, r)
             if msg:
@@ -410,7 +424,7 @@ def run_center(case):
 SUBCHECKS = [
     Sub("normalize_bg_detrend", strat_ident, run_ident, 4000, 80000,
         "images 2..14 per side (anisotropic spacing, shifted origin, values over 12 decades incl. negative means): "
-        "normalize mean 1 / idempotent / scale-invariant / keeps metadata; bg_correct == (raw-df)/(bg-df), bg_correct(a,a)==1 "
+        "normalize (also on 2-3 channel images and 3-plane z-stacks) mean 1 / equals a/mean(a) / idempotent / scale-invariant / keeps metadata; bg_correct == (raw-df)/(bg-df), bg_correct(a,a)==1 "
         "exactly, noise_sd inherited from bg only when raw's is None, mismatched shape/spacing -> BadImage; detrend(plane)=0 "
         "and detrend(img+plane)=detrend(img)",
         tolerances={"normalize": 1e-12, "bg_formula": 1e-14, "detrend": 1e-9}),
